@@ -263,6 +263,15 @@ def hazards(d):
     with_('identifier:ip-dns01', 'ip with dns-01', certificate=[dict(b['certificate'][0], identifiers=[{'ip': '192.0.2.1', 'challenge': 'dns-01'}])])
     with_('identifier:bad-ip', 'malformed ip', certificate=[dict(b['certificate'][0], identifiers=[{'ip': '999.1.1.1', 'challenge': 'http-01'}])])
     with_('identifier:weird-dns', 'odd names', certificate=[dict(b['certificate'][0], identifiers=[{'dns': x, 'challenge': 'http-01'} for x in ['', '.', '..', '*.', 'a..b', 'ß.example', 'İ.example', 'x' * 300]])])
+    # ... and one at a time (the first refusal must not hide the others), alone and after a healthy name
+    for k, x in enumerate(['', '.', '..', '*.', '*', 'a..b', 'www.example.org.', '.example.org', 'www..example.org', 'ß.example', 'İ.example', 'x' * 300, ('y' * 63 + '.') * 4 + 'z',
+                           '-a.example', 'a-.example', 'a.-.example', 'xn--', 'xn--a.example', 'a b.example', 'a\tb.example', '*.*.example', 'a.*.example', '1.2.3.4', '[::1]', 'é' * 70 + '.example',
+                           '\u200d.example', 'a.example..', '....']):
+        with_('identifier:odd-dns:%d' % k, 'dns identifier %r alone' % x, certificate=[dict(b['certificate'][0], identifiers=[{'dns': x, 'challenge': 'http-01'}])])
+        if k % 2 == 0:
+            with_('identifier:odd-dns-second:%d' % k, 'dns identifier %r after a healthy one' % x, certificate=[dict(b['certificate'][0], identifiers=[{'dns': 'ok.example.org', 'challenge': 'http-01'}, {'dns': x, 'challenge': 'dns-01'}])])
+    for k, x in enumerate(['', '::', '1', '1.2.3', '1.2.3.4.5', '0x7f.1', '::ffff:1.2.3.4', 'fe80::1%eth0', '1.2.3.4/24', ' 1.2.3.4', '٣.٣.٣.٣', ':' * 40]):
+        with_('identifier:odd-ip:%d' % k, 'ip identifier %r' % x, certificate=[dict(b['certificate'][0], identifiers=[{'ip': x, 'challenge': 'http-01'}])])
     with_('hook:both-stdin', 'stdin and stdin_str', hook=[dict(h[0], stdin='/dev/null', stdin_str='x')])
     with_('account:bad-alg', 'ES256 with an RSA key', account=[dict(b['account'][0], key_type='rsa2048', signature_algorithm='ES256')])
     with_('account:eab-bad-key', 'external account key that is not base64url', account=[dict(b['account'][0], external_account={'identifier': 'k', 'key': '***'})])
@@ -356,6 +365,15 @@ def include_cases(d):
                 {'main.toml': 'include = ["conf.d/*.toml"]\n' + good, 'conf.d/all.toml': C.Raw('SYMLINK:../main.toml')}))
     out.append(('include:cycle-symlink-dir', 'include through a directory link pointing back to the directory', {'main.toml': 'include = ["link/main.toml"]\n' + good, 'link': C.Raw('SYMLINK:.')}))
     out.append(('include:cycle-symlink-alias', 'a -> alias.toml (link to b.toml) -> a', {'main.toml': 'include = ["alias.toml"]\n' + good, 'b.toml': 'include = ["main.toml", "alias.toml"]\n', 'alias.toml': C.Raw('SYMLINK:b.toml')}))
+    # files reached along many paths: each is read once, however many paths lead to it
+    lat = {'main.toml': 'include = ["l0a.toml", "l0b.toml"]\n' + good}
+    for k in range(28):
+        for x in 'ab':
+            lat['l%d%s.toml' % (k, x)] = ('include = ["l%da.toml", "l%db.toml"]\n' % (k + 1, k + 1)) if k < 27 else ''
+    out.append(('include:lattice', '28 layers of two files, each including both files of the next layer (no cycle)', lat))
+    out.append(('include:fan-in', 'forty files all including the same forty files', dict(
+        [('main.toml', 'include = ["a*.toml"]\n' + good)] + [('a%d.toml' % i, 'include = ["b*.toml"]\n') for i in range(40)] +
+        [('b%d.toml' % i, 'include = ["c*.toml"]\n') for i in range(40)] + [('c%d.toml' % i, 'include = ["d.toml"]\n') for i in range(40)] + [('d.toml', '')])))
     out.append(('include:deep-chain', '200 files each including the next', dict(
         [('main.toml', 'include = ["f0.toml"]\n' + good)] + [('f%d.toml' % i, 'include = ["f%d.toml"]\n' % (i + 1) if i < 199 else '') for i in range(200)])))
     return out
@@ -391,9 +409,10 @@ def run_probe_cases(chk, d, cases):
     pos = 0
     guard = 0
     while pos < len(cases):
-        reqs = [{'config': p, 'timeout_ms': 2500} for p in paths[pos:]]
+        # short batches: a configuration that never finishes loading costs one batch deadline, not the deadline of the whole catalogue
+        reqs = [{'config': p, 'timeout_ms': 2500} for p in paths[pos:pos + 24]]
         t0 = time.time()
-        rc, recs, err = C.probe('firstreq', reqs, timeout=30 + 4 * len(reqs), cwd=d)
+        rc, recs, err = C.probe('firstreq', reqs, timeout=45 + 4 * len(reqs), cwd=d)
         if rc == 64:
             chk.inconclusive.append('configuration probe unavailable: %s' % err)
             return
@@ -405,7 +424,7 @@ def run_probe_cases(chk, d, cases):
             else:
                 res[rec['config']] = rec
         n_done = 0
-        for k, p in enumerate(paths[pos:]):
+        for k, p in enumerate(paths[pos:pos + 24]):
             if p not in res:
                 break
             n_done += 1
@@ -429,7 +448,8 @@ def run_probe_cases(chk, d, cases):
                 if not (rec.get('err') or '').strip():
                     chk.violation('C19|empty-error|%s' % c['label'], 'configuration rejected with an empty error message (%s)' % c['detail'], {'case': c, 'result': rec})
         if rc == 0 and n_done == len(reqs):
-            break
+            pos += n_done
+            continue
         culprit = pos + n_done
         if culprit < len(cases):
             c = cases[culprit]
@@ -564,7 +584,7 @@ def run(tier):
         C.rmtree(d)
     chk.rule = ('period strings from a grammar-aware generator (valid, nearly valid, overflowing) against a Python bignum parser; '
                 'configurations: 3 valid bases mutated field by field (delete / wrong type / empty / boundary / huge), a catalogue of '
-                'structural hazards (group cycles, include cycles, zero/huge rate limits, overflowing periods, dangling references), '
+                'structural hazards (group cycles, include cycles, include graphs whose files are reached along millions of paths, odd DNS and IP identifiers one at a time, zero/huge rate limits, overflowing periods, dangling references), '
                 'malformed files; distinct = (hazard or mutated field, outcome class) pairs and period classes observed')
     chk.assumptions = ['the verification build caps the limiter poll interval at 200 ms, so that "never admitted" is decidable in 2.5 s',
                        'exit status 1/2/3 with a message on stderr is a rejection']
